@@ -6,6 +6,12 @@ use crate::{
     helpers::{days_in_year, is_leap, is_long_year, week_day},
 };
 
+const US_PER_SECOND: u64 = 1_000_000;
+const US_PER_MINUTE: u64 = 60 * US_PER_SECOND;
+const US_PER_HOUR: u64 = 60 * US_PER_MINUTE;
+const US_PER_DAY: u64 = 24 * US_PER_HOUR;
+const US_PER_WEEK: u64 = 7 * US_PER_DAY;
+
 #[derive(Debug, Clone)]
 pub struct ParseError {
     index: usize,
@@ -80,6 +86,46 @@ impl ParsedDuration {
             seconds: 0,
             microseconds: 0,
         }
+    }
+
+    /// Adds the value of the fractional part of a component.
+    ///
+    /// `digits` are the decimal digits following the separator and
+    /// `unit` is the length of the component's unit in microseconds.
+    fn add_fraction(&mut self, digits: &[u8], unit: u64) {
+        let mut micros = fraction_to_microseconds(digits, unit);
+
+        self.days += (micros / US_PER_DAY) as u32;
+        micros %= US_PER_DAY;
+        self.hours += (micros / US_PER_HOUR) as u32;
+        micros %= US_PER_HOUR;
+        self.minutes += (micros / US_PER_MINUTE) as u32;
+        micros %= US_PER_MINUTE;
+        self.seconds += (micros / US_PER_SECOND) as u32;
+        self.microseconds += (micros % US_PER_SECOND) as u32;
+    }
+}
+
+/// Exact value of `0.<digits>` units of `unit` microseconds each,
+/// rounded half up to the microsecond.
+///
+/// This is a schoolbook multiplication of the digit string by `unit`,
+/// starting from the last digit, so that any number of digits is supported
+/// without loss of precision: the carry is always smaller than `unit`.
+fn fraction_to_microseconds(digits: &[u8], unit: u64) -> u64 {
+    let mut carry: u64 = 0;
+    let mut first_dropped_digit: u64 = 0;
+
+    for digit in digits.iter().rev() {
+        let value = u64::from(digit - b'0') * unit + carry;
+        first_dropped_digit = value % 10;
+        carry = value / 10;
+    }
+
+    if first_dropped_digit >= 5 {
+        carry + 1
+    } else {
+        carry
     }
 }
 
@@ -635,18 +681,7 @@ impl<'a> Parser<'a> {
                                 duration.hours += value;
 
                                 if let Some(fraction) = op_fraction {
-                                    let extra_minutes = fraction * 60_f64;
-                                    let extra_full_minutes: f64 = extra_minutes.trunc();
-                                    duration.minutes += extra_full_minutes as u32;
-                                    let extra_seconds =
-                                        ((extra_minutes - extra_full_minutes) * 60.0).round();
-                                    let extra_full_seconds = extra_seconds.trunc();
-                                    duration.seconds += extra_full_seconds as u32;
-                                    let micro_extra = ((extra_seconds - extra_full_seconds)
-                                        * 1_000_000.0)
-                                        .round()
-                                        as u32;
-                                    duration.microseconds += micro_extra;
+                                    duration.add_fraction(fraction, US_PER_HOUR);
                                 }
                             }
                             'M' => {
@@ -659,22 +694,14 @@ impl<'a> Parser<'a> {
                                 duration.minutes += value;
 
                                 if let Some(fraction) = op_fraction {
-                                    let extra_seconds = fraction * 60_f64;
-                                    let extra_full_seconds = extra_seconds.trunc();
-                                    duration.seconds += extra_full_seconds as u32;
-                                    let micro_extra = ((extra_seconds - extra_full_seconds)
-                                        * 1_000_000.0)
-                                        .round()
-                                        as u32;
-                                    duration.microseconds += micro_extra;
+                                    duration.add_fraction(fraction, US_PER_MINUTE);
                                 }
                             }
                             'S' => {
                                 duration.seconds = value;
 
                                 if let Some(fraction) = op_fraction {
-                                    duration.microseconds +=
-                                        (fraction * 1_000_000.0).round() as u32;
+                                    duration.add_fraction(fraction, US_PER_SECOND);
                                 }
                             }
                             _ => {
@@ -727,25 +754,7 @@ impl<'a> Parser<'a> {
                                 duration.weeks = value;
 
                                 if let Some(fraction) = op_fraction {
-                                    let extra_days = fraction * 7_f64;
-                                    let extra_full_days = extra_days.trunc();
-                                    duration.days += extra_full_days as u32;
-                                    let extra_hours = (extra_days - extra_full_days) * 24.0;
-                                    let extra_full_hours = extra_hours.trunc();
-                                    duration.hours += extra_full_hours as u32;
-                                    let extra_minutes =
-                                        ((extra_hours - extra_full_hours) * 60.0).round();
-                                    let extra_full_minutes: f64 = extra_minutes.trunc();
-                                    duration.minutes += extra_full_minutes as u32;
-                                    let extra_seconds =
-                                        ((extra_minutes - extra_full_minutes) * 60.0).round();
-                                    let extra_full_seconds = extra_seconds.trunc();
-                                    duration.seconds += extra_full_seconds as u32;
-                                    let micro_extra = ((extra_seconds - extra_full_seconds)
-                                        * 1_000_000.0)
-                                        .round()
-                                        as u32;
-                                    duration.microseconds += micro_extra;
+                                    duration.add_fraction(fraction, US_PER_WEEK);
                                 }
                             }
                             'D' => {
@@ -757,22 +766,7 @@ impl<'a> Parser<'a> {
 
                                 duration.days += value;
                                 if let Some(fraction) = op_fraction {
-                                    let extra_hours = fraction * 24.0;
-                                    let extra_full_hours = extra_hours.trunc();
-                                    duration.hours += extra_full_hours as u32;
-                                    let extra_minutes =
-                                        ((extra_hours - extra_full_hours) * 60.0).round();
-                                    let extra_full_minutes: f64 = extra_minutes.trunc();
-                                    duration.minutes += extra_full_minutes as u32;
-                                    let extra_seconds =
-                                        ((extra_minutes - extra_full_minutes) * 60.0).round();
-                                    let extra_full_seconds = extra_seconds.trunc();
-                                    duration.seconds += extra_full_seconds as u32;
-                                    let micro_extra = ((extra_seconds - extra_full_seconds)
-                                        * 1_000_000.0)
-                                        .round()
-                                        as u32;
-                                    duration.microseconds += micro_extra;
+                                    duration.add_fraction(fraction, US_PER_DAY);
                                 }
                             }
                             _ => {
@@ -796,22 +790,23 @@ impl<'a> Parser<'a> {
         Ok(())
     }
 
-    fn parse_duration_number_frac(&mut self) -> Result<(u32, Option<f64>), ParseError> {
+    fn parse_duration_number_frac(&mut self) -> Result<(u32, Option<&'a [u8]>), ParseError> {
         let value = self.parse_duration_number()?;
-        let fraction = matches!(self.current, '.' | ',').then(|| {
-            let mut decimal = 0_f64;
-            let mut denominator = 1_f64;
 
-            while let Some(digit) = self.inc().and_then(|ch| ch.to_digit(10)) {
-                decimal *= 10.0;
-                decimal += f64::from(digit);
-                denominator *= 10.0;
-            }
+        if !matches!(self.current, '.' | ',') {
+            return Ok((value, None));
+        }
 
-            decimal / denominator
-        });
+        let src: &'a str = self.src;
+        let start = self.idx + 1;
 
-        Ok((value, fraction))
+        while self.inc().is_some_and(|ch| ch.is_ascii_digit()) {}
+
+        if self.idx == start {
+            return Err(self.parse_error("Invalid duration fraction".to_string()));
+        }
+
+        Ok((value, Some(&src.as_bytes()[start..self.idx])))
     }
 
     fn parse_duration_number(&mut self) -> Result<u32, ParseError> {
